@@ -553,13 +553,16 @@ class Function(Value):
     def CreateConstant(
         self, constantType: Type, value: Union[int, float, bool]
     ):
-        result = self.__constants.get(value, None)
+        # 1, 1.0 and True compare (and hash) equal, so the type has to be part
+        # of the key or an int constant is handed out for a float one
+        key = (str(constantType), type(value).__name__, value)
+        result = self.__constants.get(key, None)
         if result:
             return result
 
         cv = ConstantValue(constantType, value)
         self.RegisterValue(cv)
-        self.__constants[value] = cv
+        self.__constants[key] = cv
 
         return cv
 
